@@ -73,6 +73,9 @@ def run(repo, tier) -> Result:
 
     check_nan("C09", res, repo, cas)
     check_gap("C09", res, repo, cas)
+    from ..rules_calc import check_managed_gap
+
+    check_managed_gap("C09", res, repo, cas)
     check_sqrt("C09", res, repo, cas, signs)
     check_truth("C09", res, repo, cas, signs)
     check_wire("C09", res, repo, cas)
